@@ -122,6 +122,10 @@ func (c OptionalColumn) ReadOr(s string) string {
 	if c.i < 0 {
 		return s
 	}
+	// In GTFS an empty value is equivalent to the column being omitted.
+	if c.f.currentRow.cells[c.i] == "" {
+		return s
+	}
 	return c.f.currentRow.cells[c.i]
 }
 
